@@ -1472,6 +1472,11 @@ func c03ParseListing(text string) (inputs []string, instrs []c03ListInstr, err e
 		}
 		in := c03ListInstr{op: f[0]}
 		for _, tok := range f[1:] {
+			if in.op == "circ" && (strings.HasPrefix(tok, "{G=") || strings.HasPrefix(tok, "W=")) {
+				// "circ a b {G=376, W=504} r": the size of instr.Circ (the gates are
+				// taken from the in-memory instruction, c03SSASX)
+				continue
+			}
 			if strings.HasPrefix(tok, "$") {
 				in.args = append(in.args, c03ListOpnd{isConst: true, text: tok})
 				continue
@@ -1499,6 +1504,7 @@ var c03Modelled = map[ssa.Operand]bool{
 	ssa.Slice: true, ssa.Amov: true, ssa.Index: true, ssa.Phi: true,
 	ssa.Concat: true, ssa.Bts: true, ssa.Btc: true,
 	ssa.Builtin: true, // only circuits.Hamming (checked in c03SSASX)
+	ssa.Circ:    true, // native circuit: instr.Circ is exported with the instruction
 }
 
 // c03SSASX converts the parsed listing into the term of Lang/Ssa.v.  The
@@ -1582,7 +1588,7 @@ func c03SSASX(res *c03Compiled) (SX, string) {
 		if in.Out != nil {
 			nOut = 1
 		}
-		if len(li.args) != len(in.In)+nOut {
+		if in.Op != ssa.Circ && len(li.args) != len(in.In)+nOut {
 			return SX{}, "listing: operand count differs at " + in.String()
 		}
 		var args []SX
@@ -1595,6 +1601,47 @@ func c03SSASX(res *c03Compiled) (SX, string) {
 		}
 		if in.Op == ssa.Ret {
 			rets = args
+			continue
+		}
+		if in.Op == ssa.Circ {
+			// circ a.. {G,W} r0 .. rm: Lang/Ssa.v's Ocirc defines ONE value, the
+			// concatenation of all results (the wires circOut of Program.Circuit);
+			// one slice instruction per r_j follows (slice emits no gate, so r_j is
+			// registered with exactly the wires walloc holds for it)
+			if in.Circ == nil || in.Out != nil || len(li.args) != len(in.In)+len(in.Ret) {
+				return SX{}, "listing: circ operands differ at " + in.String()
+			}
+			var ins []SX
+			for _, io := range in.Circ.Inputs {
+				ins = append(ins, I(int(io.Type.Bits)))
+			}
+			total := 0
+			for _, r := range in.Ret {
+				total += int(r.Type.Bits)
+			}
+			dims, gates := CircuitSX(in.Circ)
+			instrs = append(instrs, L(I(int(in.Op)), I(0), Bool(false), I(total), L(args...), L(ins...), dims, gates))
+			whole := next
+			next++
+			off := 0
+			for j, r := range in.Ret {
+				lo := li.args[len(in.In)+j]
+				rkey := fmt.Sprintf("%s{%d,%d}", r.Name, r.Scope, r.Version)
+				rsg := r.Type.Type == types.TInt
+				if lo.isConst || lo.key != rkey || lo.bits != int(r.Type.Bits) || (lo.kind == "i") != rsg {
+					return SX{}, "listing: circ result differs at " + in.String()
+				}
+				if _, dup := idx[rkey]; dup {
+					return SX{}, "value defined twice: " + rkey
+				}
+				w := int(r.Type.Bits)
+				k := func(v int) SX { return L(I(1), I(32), I(v), Bool(true), I(32)) }
+				instrs = append(instrs, L(I(int(ssa.Slice)), I(0), Bool(rsg), I(w),
+					L(L(I(0), I(whole), Bool(false), I(total)), k(off), k(off+w))))
+				idx[rkey] = next
+				next++
+				off += w
+			}
 			continue
 		}
 		if !c03Modelled[in.Op] || in.Out == nil {
